@@ -43,6 +43,7 @@ Dq = DiagonalOperator(jnp.array([1., 2.], f32), in_structure=iqu)    # inert on 
 Pk = PackOperator(jnp.array([True, False]), iqu)
 P = IndexOperator(jnp.array([0, 0, 1]), in_structure=S(2))            # non-unique indexing 2 -> 3
 U = IndexOperator(jnp.array([1, 0]), in_structure=S(2), unique_indices=True)
+U2 = IndexOperator((slice(0, 2), 0), in_structure=S(2, 1))           # duplicate-free indexing of TWO axes, (2,1) -> (2,)
 Dv = DiagonalOperator(jnp.array([1., 2.], f32), in_structure=S(2))    # inert on vec2
 A = DenseBlockDiagonalOperator(jnp.array([[2., 1.], [1., 2.]], f32), S(2), 'ij,j->i')   # SPD, reduced
 AI = A.I
@@ -56,7 +57,7 @@ BD = BlockDiagonalOperator([Dv, Dv])
 BC = BlockColumnOperator([A, Dv])
 CAT = {
     'Rot': Rot, 'RotT': Rot.T, 'RotF': RotF, 'RotFT': RotF.T, 'RotN': RotN, 'RotNT': RotN.T, 'Hwp': Hwp, 'Pol': Pol, 'Dq': Dq, 'Pk': Pk, 'PkT': Pk.T,
-    'P': P, 'PT': P.T, 'U': U, 'UT': U.T, 'Dv': Dv, 'A': A, 'AI': AI, 'W': W, 'Rs': Rs, 'RsT': Rs.T, 'Mv': Mv, 'MvI': MvI,
+    'P': P, 'PT': P.T, 'U': U, 'UT': U.T, 'U2': U2, 'U2T': U2.T, 'Dv': Dv, 'A': A, 'AI': AI, 'W': W, 'Rs': Rs, 'RsT': Rs.T, 'Mv': Mv, 'MvI': MvI,
     'BR': BR, 'BD': BD, 'BC': BC,
 }
 NAMES = list(CAT)
@@ -119,7 +120,7 @@ DOCUMENTED = {
     ('AI', 'A'): [], ('A', 'AI'): [], ('Rot', 'RotF'): ['RotN'], ('Rot', 'RotT'): None, ('RotT', 'Rot'): None, ('Rot', 'RotFT'): ['RotN'],
     ('RotT', 'RotFT'): ['RotN'], ('Rot', 'Hwp'): ['Hwp', 'RotT'], ('RotT', 'Hwp'): ['Hwp', 'Rot'], ('Pol', 'Hwp'): ['Pol'],
     ('BR', 'BD'): ['BR'], ('BD', 'BC'): ['BC'], ('BD', 'BD'): ['BD'], ('BR', 'BC'): ['SUM'],
-    ('U', 'UT'): [], ('Pk', 'PkT'): [], ('PT', 'P'): ['Dv'], ('RsT', 'Rs'): [], ('Rs', 'RsT'): [], ('Mv', 'MvI'): [], ('MvI', 'Mv'): [],
+    ('U', 'UT'): [], ('U2', 'U2T'): [], ('Pk', 'PkT'): [], ('PT', 'P'): ['Dv'], ('RsT', 'Rs'): [], ('Rs', 'RsT'): [], ('Mv', 'MvI'): [], ('MvI', 'Mv'): [],
 }
 # pairs that must NOT be rewritten
 MUST_NOT = [('P', 'PT'), ('UT', 'U'), ('Dv', 'A'), ('W', 'A'), ('Pol', 'Rot')]
